@@ -28,7 +28,7 @@ func init() {
 			{ID: "C07-R3", Title: "no plaintext dropped on a stream-read error", Decides: "no byte lost across read time-outs", Floor: 1, Run: c07r3},
 			{ID: "C07-R4", Title: "the remainder is fetched only when none is pending", Decides: "no byte lost or reordered between messages", Floor: 1, Run: c07r4},
 			{ID: "C07-R5", Title: "frame pieces are read completely however the network splits them; a frame is consumed only when it is complete, and handed out at once", Decides: "frames split at every offset are reassembled", Floor: 1, Run: func(c *core.Ctx) { c07r5(c); frameAtATime(c) }},
-			{ID: "C07-R6", Title: "a short frame ends the message; one decrypt per read, errors returned; counter advanced after the frame is read; read-ahead never discarded", Decides: "no byte lost across time-outs, coalesced frames and deadlines", Floor: 5, Run: c07r6},
+			{ID: "C07-R6", Title: "a short frame ends the message; one decrypt per read, errors returned; counter advanced after the frame is read; read-ahead never discarded", Decides: "no byte lost across time-outs, coalesced frames and deadlines", Floor: 5, Run: func(c *core.Ctx) { c07r6(c); polarityEverywhere(c, "C07") }},
 		},
 	})
 }
